@@ -87,12 +87,41 @@ func (d *dagStoreImpl) UpdateSpec(name string, spec []byte) error {
 	if !exists(loc) {
 		return fmt.Errorf("%w: %s", errDOGFileNotExist, loc)
 	}
-	err = os.WriteFile(loc, spec, defaultPerm)
+	err = writeFileAtomic(loc, spec, defaultPerm)
 	if err != nil {
 		return err
 	}
 	d.metaCache.Invalidate(loc)
 	return nil
+}
+
+// writeFileAtomic replaces the content of file by writing a temporary file
+// next to it and renaming it over the original, so that a reader (or a crash
+// of this process) sees the complete old or the complete new content, never
+// a truncated or partially written file.
+func writeFileAtomic(file string, data []byte, perm os.FileMode) error {
+	if fi, err := os.Stat(file); err == nil {
+		perm = fi.Mode().Perm()
+	}
+	tmp := file + ".tmp"
+	f, err := os.OpenFile(tmp, os.O_WRONLY|os.O_CREATE|os.O_TRUNC, perm)
+	if err != nil {
+		return err
+	}
+	_, err = f.Write(data)
+	if err == nil {
+		err = f.Sync()
+	}
+	if cerr := f.Close(); err == nil {
+		err = cerr
+	}
+	if err == nil {
+		err = os.Rename(tmp, file)
+	}
+	if err != nil {
+		_ = os.Remove(tmp)
+	}
+	return err
 }
 
 var errDAGFileAlreadyExists = errors.New("the DAG file already exists")
